@@ -116,6 +116,15 @@ func (i *impl) Exec(op hx.Zs) []hx.Zs {
 			return []hx.Zs{{92}}
 		}
 		return i.observe(i.w.deliver(p, payload))
+	case opOpaque:
+		p, payload := splitOpaque(op)
+		var crash []hx.Zs
+		for _, o := range i.observe(i.w.deliver(p, payload)) {
+			if len(o) > 0 && o[0] >= 90 { // outputs of an opaque payload are not compared
+				crash = append(crash, o)
+			}
+		}
+		return crash
 	case opProbe:
 		if len(op) < 3 {
 			return nil
@@ -126,7 +135,15 @@ func (i *impl) Exec(op hx.Zs) []hx.Zs {
 	return nil
 }
 
-func gen(r *hx.Rng, tier string, i int) []hx.Zs { return genHistory(r, tier) }
+// every 25th generated history is a slice of the function sweep's payload mutants
+func gen(r *hx.Rng, tier string, i int) []hx.Zs {
+	if i%25 == 7 {
+		if h := rotatingSweep(r); h != nil {
+			return h
+		}
+	}
+	return genHistory(r, tier)
+}
 
 func extra() map[string]any {
 	kinds := map[string]int{}
@@ -146,6 +163,7 @@ func extra() map[string]any {
 		"outbound_datagrams_by_classifier": outKinds,
 		"wedges_observed":                  wedges,
 		"watchdog_seconds":                 watchdog.Seconds(),
+		"function_sweep":                   sweepStats,
 	}
 }
 
@@ -172,7 +190,8 @@ func main() {
 		Property: "C05",
 		Model:    "c05",
 		Clauses:  map[int64]string{1: "panic", 2: "wedge", 3: "discovery-read-unanswered", 4: "shape", 98: "bad-observation", 99: "bad-operation"},
-		OpNames:  map[int64]string{1: "connect", 2: "disconnect", 3: "inbound", 4: "probe"},
+		OpNames:  map[int64]string{1: "connect", 2: "disconnect", 3: "inbound", 4: "probe", 5: "opaque-data-payload"},
+		Fixed:    fixedSweep,
 		NewImpl:  newImpl,
 		Gen:      gen,
 		Count:    map[string]int{"quick": 1400, "thorough": 30000},
